@@ -79,6 +79,26 @@ func (t *T) TableFormula(ptr unsafe.Pointer, elemSize, count int, f func(i uint6
 	return true
 }
 
+// And / Or / Implies / Not: branch-free boolean connectives for harness
+// conditions (the engine builds one term instead of forking on each operand).
+func And(a, b bool, more ...bool) bool {
+	r := a && b
+	for _, m := range more {
+		r = r && m
+	}
+	return r
+}
+
+func Or(a, b bool, more ...bool) bool {
+	r := a || b
+	for _, m := range more {
+		r = r || m
+	}
+	return r
+}
+
+func Implies(a, b bool) bool { return !a || b }
+
 // Choice is an ENUMERATED dimension: the engine forks one path per value.
 func (t *T) Choice(name string, n int) int {
 	v := t.pop()
